@@ -553,9 +553,13 @@ def flux_sweep_job(job: dict) -> dict:
         ds = dt["/bucket"].to_dataset()
         for i, b in enumerate(bases):
             for j, t in enumerate(tlist):
-                sel = ds.isel(level=i)
+                # (the coordinate of a swept parameter is sorted: select by value, not by declaration position)
+                lv = [float(v) for v in ds["level"].values.tolist()]
+                sel = ds.isel(level=lv.index(float(b * px.TICK)))
                 if "readout_time_id" in sel.dims:
-                    sel = sel.isel(readout_time_id=j)
+                    rt = [float(np.ravel(np.asarray(v, dtype=object))[0]) if not isinstance(v, (int, float)) else float(v)
+                          for v in sel["readout_time"].values.tolist()] if "readout_time" in sel.coords else None
+                    sel = sel.isel(readout_time_id=(rt.index(t / px.TICK) if rt else j))
                 # the time coordinate holds floats, or (dask path) the swept one-element tuples
                 tvals = [float(np.ravel(np.asarray(v, dtype=object))[0]) if not isinstance(v, (int, float)) else float(v)
                          for v in sel["time"].values.tolist()]
